@@ -213,6 +213,16 @@ func (spec *Spec) ParsePatterns(ctx context.Context) error {
 			b.Pattern = x
 		}
 	}
+
+	// The patterns are structures now.  Say so: otherwise compiling
+	// again (Compile calls this method, and parses once more
+	// itself), or compiling a serialized copy of this spec, would
+	// parse them a second time, which fails for a pattern that is a
+	// string and turns the string "1" into the number 1.
+	if spec.PatternSyntax != "" {
+		spec.PatternSyntax = "none"
+	}
+
 	return nil
 }
 
